@@ -494,6 +494,20 @@ func c19MaskEvents(nlive int) []c19ev {
 			}
 			return -1, nil, true
 		})
+		un("ConcatSelf", func(w *c19world, t *tensor.Dense) (int, [][]int, bool) {
+			// operands (here: the same tensor twice, and every other live tensor of the same shape) are only read
+			others := []tensor.Tensor{t}
+			for k, o := range w.live {
+				if k != i && o.t.Shape().Eq(t.Shape()) && o.t.Dims() == t.Dims() {
+					others = append(others, o.t)
+				}
+			}
+			r, err := tensor.Concat(0, t, others...)
+			if rd, ok := r.(*tensor.Dense); ok && err == nil {
+				tensor.ReturnTensor(rd)
+			}
+			return -1, nil, true
+		})
 		un("MaskedCount", func(w *c19world, t *tensor.Dense) (int, [][]int, bool) {
 			t.MaskedCount()
 			t.FlatNotMaskedContiguous()
@@ -580,7 +594,11 @@ func c19Explore(r *core.Run, label string, evs []c19ev, depth, maxStates int) {
 		}
 		defer tensor.VerifSetHooks(nil, nil, nil, nil, nil)
 		// replay builds the world reached by a history; returns nil if an event is no longer applicable
+		nreplays := 0
 		replay := func(hist []string) *c19world {
+			if nreplays++; nreplays%2048 == 0 {
+				runtime.GC() // between replays nothing of the library is live (see C18)
+			}
 			tensor.VerifResetPools()
 			setEnv()
 			w := &c19world{}
